@@ -35,8 +35,9 @@ def post_stage(stage, res, verdict):
         verdict.inconclusive.append("fewer than 30%% of the cases had non-zero mixed (art) terms: %d of %d" % (n, len(res["obs"])))
 
 
-RULE = ("case = random admissible grid (non-uniform angular spacing in 70%), geometry with emphasis on non-orthogonal "
-        "mappings (Shafranov, Czarny, Culham), profile, DirBC; 6-10 vector pairs (uniform, wide, spikes, smooth, single node) "
+RULE = ("case = random admissible grid (non-uniform angular spacing in 70%; 5% levels of 81-97 x 128-160 nodes with 2-16 threads), "
+        "geometry with emphasis on non-orthogonal mappings (Shafranov, Czarny, Culham; 15% mirrored, det DF < 0), profile, DirBC; one fixed "
+        "witness case of F17; 6-10 vector pairs (uniform, wide, spikes, smooth, single node) "
         "vanishing on Dirichlet nodes, 4 inverse-iteration steps towards the smallest eigenvalue; on grids with <=500 (quick) / "
         "<=2000 (thorough) interior unknowns the interior matrix of give, take and the reference is extracted column by "
         "column and its symmetric part Cholesky-factorised in long double, as are all circle and radial line blocks; "
